@@ -76,6 +76,20 @@ def histories(rng, tier):
                 ln += ' nsr=%d' % (spord + rng.choice([1, 2, 5]))
             h.append(ln)
         out.append(h)
+    # footprints that are TINY in their sampling window (one or two pixels 6-7 orders below the coverage
+    # resolution: a whole batch of 10 000 candidates often holds no valid point), few points requested — the
+    # rejection loop runs many rounds, and whatever it does when a round finds nothing must stay seeded
+    # (seeded change C20f fell back to an unseeded generator)
+    for _ in range(4 if tier == 'quick' else 16):
+        covord = rng.choice([2, 3])
+        spord = covord + rng.choice([6, 7])
+        c = gen.MapCfg('m', 'plain', covord, spord, dtype='b1')
+        npix = 12 * 4 ** spord
+        pix = sorted(set(rng.randrange(npix) for _ in range(rng.choice([1, 2]))))
+        h = [c.line(), 'upd m op=replace pix=%s val=T' % ','.join(map(str, pix))]
+        for _ in range(2):
+            h.append('rand m gen=uniform n=%d seed=%d' % (rng.choice([1, 3, 8]), rng.randint(1, 10 ** 6)))
+        out.append(h)
     return out
 
 
